@@ -62,6 +62,8 @@ class GMRFPiecewiseCoalescentBlockUpdatingOperator(MCMCOperator):
         return math.sqrt(self._scaler - 1)
 
     def set_adaptable_parameter(self, value: float) -> None:
+        # sqrt(scaler - 1) cannot be negative: do not reflect the update upwards
+        value = max(value, 0.0)
         self._scaler = 1 + value * value
 
     def propose_precision(self):
